@@ -59,13 +59,8 @@ def check_unravel_2d(m: Model, r, rid: str) -> None:
             par[id(c)] = p_
 
     def guards(n: ast.AST) -> list[tuple[str, str]]:
-        out = []
-        cur, prev = par.get(id(n)), n
-        while cur is not None:
-            if isinstance(cur, ast.If):
-                out.append(("then" if prev in cur.body else "else", ast.unparse(cur.test)))
-            prev, cur = cur, par.get(id(cur))
-        return out
+        """Conditions under which n is reached, as ("then" | "else", positive test text): enclosing ifs and guard clauses alike (path conditions in normal form)."""
+        return [("then" if pol else "else", t) for t, pol in norm_conds(path_condition(u2.node, n))]
 
     stores = [n for n in ast.walk(u2.node) if isinstance(n, ast.Assign) and isinstance(n.targets[0], ast.Subscript) and ast.unparse(n.targets[0].value) == mp]
     none_stores = [s for s in stores if isinstance(s.value, ast.Constant) and s.value.value is None]
@@ -85,12 +80,12 @@ def check_unravel_2d(m: Model, r, rid: str) -> None:
     other = [s for s in stores if s not in none_stores]
     def key_of(s_):
         return ast.unparse(s_.targets[0].slice)
-    r.check(bool(other or creators) and all(any(side == "then" and t.replace(" ", "") == f"{key_of(s)}notin{mp}" for side, t in guards(s)) for s in other), rid,
+    r.check(bool(other or creators) and all(any(side == "else" and t.replace(" ", "") == f"{key_of(s)}in{mp}" for side, t in guards(s)) for s in other), rid,
             f"{u2.qualname}#listing-never-replaces-all",
             f"an id set may only be created for a key that is not in the map yet ({[ast.unparse(s) for s in other]}): otherwise a later `key:ids` entry "
             "replaces an earlier whole-key entry", loc=u2.loc)
     muts = [n for n in ast.walk(u2.node) if isinstance(n, ast.Call) and isinstance(n.func, ast.Attribute) and n.func.attr in ("add", "update") and ast.unparse(n.func.value) != mp]
-    r.check(bool(muts) and all(any(side == "then" and "is not None" in t for side, t in guards(x)) for x in muts), rid, f"{u2.qualname}#extend-only-sets",
+    r.check(bool(muts) and all(any(side == "else" and " is None" in t for side, t in guards(x)) for x in muts), rid, f"{u2.qualname}#extend-only-sets",
             "ids may only be added to an entry that is tested to be not None", loc=u2.loc)
 
 
